@@ -25,6 +25,7 @@ type SimServer struct {
 
 	mu       sync.Mutex
 	seq      int
+	perLabel map[string]int
 	Requests int
 	// Panics holds the text of handler panics (a real server would drop the
 	// connection; here the client sees a transport error and the engine
@@ -32,12 +33,26 @@ type SimServer struct {
 	Panics []string
 }
 
-func (s *SimServer) next() int {
+// next numbers the requests of one label: concurrent requests of the same
+// peer get distinct scheduling-point labels.
+func (s *SimServer) next(label string) int {
 	s.mu.Lock()
 	defer s.mu.Unlock()
 	s.seq++
 	s.Requests++
-	return s.seq
+	if s.perLabel == nil {
+		s.perLabel = map[string]int{}
+	}
+	s.perLabel[label]++
+	return s.perLabel[label]
+}
+
+type labelKey struct{}
+
+// WithLabel makes requests issued under ctx carry label in their
+// scheduling-point names (instead of the transport's).
+func WithLabel(ctx context.Context, label string) context.Context {
+	return context.WithValue(ctx, labelKey{}, label)
 }
 
 func (s *SimServer) notePanic(msg string) {
@@ -359,9 +374,11 @@ func (b *respBody) Close() error {
 
 // RoundTrip serves req by the server's handler on a new goroutine.
 func (t *SimTransport) RoundTrip(req *http.Request) (*http.Response, error) {
-	n := t.Srv.next()
-	_ = n
 	label := t.Label
+	if l, ok := req.Context().Value(labelKey{}).(string); ok {
+		label = l + "/" + t.Label
+	}
+	label = fmt.Sprintf("%s#%d", label, t.Srv.next(label))
 	sctx, cancel := context.WithCancel(context.Background())
 
 	u := &url.URL{Path: req.URL.Path, RawPath: req.URL.RawPath, RawQuery: req.URL.RawQuery}
